@@ -37,6 +37,23 @@ func TestVerifC05Closes(t *testing.T) {
 		step := 0
 		pendingChecked, afterCut := false, false
 		sawCut := false
+		// Between accepting a signature and revoking, the live object's
+		// local chain is ahead of the durable commitment: a force close
+		// from the live object must still produce the durable one.
+		var hookErr error
+		liveChecked := false
+		s.OnBeforeRevoke = func(y int, h uint64) {
+			if hookErr != nil || (int(h)+phase)%2 != 0 {
+				return
+			}
+			cs, err := s.CheckLocalCloseLive(y)
+			if err != nil {
+				hookErr = err
+				return
+			}
+			total.Add(cs)
+			liveChecked = true
+		}
 		err := s.Run(t, chansim.RunOpts{
 			MinSteps: 6, MaxSteps: maxSteps, Cuts: true, CutWeight: 1,
 			AfterCut: func(*chansim.Sim, *chansim.RetransmitReport) error {
@@ -44,6 +61,9 @@ func TestVerifC05Closes(t *testing.T) {
 				return nil
 			},
 			AfterStep: func(s *chansim.Sim, a string) error {
+				if hookErr != nil {
+					return hookErr
+				}
 				step++
 				if (step+phase)%every != 0 && a != "cut" {
 					return nil
@@ -95,6 +115,9 @@ func TestVerifC05Closes(t *testing.T) {
 		}
 		if afterCut {
 			ls = append(ls, "checked_after_reload")
+		}
+		if liveChecked {
+			ls = append(ls, "live_object_checked_before_revoke")
 		}
 		htlcSpends := total.TimeoutTxs + total.SuccessTxs + total.DirectHtlcClaims
 		nontrivial := htlcSpends >= 2 &&
